@@ -392,3 +392,9 @@ U("cJSON_GetNumberValue", "cjson", "harness/c_preds.c", enforce="cJSON_GetNumber
   defs=["-DPD_KIND=2", "-DPD_H=h_cJSON_GetNumberValue"], note="the double of a Number node, NaN otherwise (cJSON_IsNumber replaced by its proved contract)")
 U("print_string", "cjson", "harness/c_preds.c", enforce="print_string", shape="U", props=["C05", "C04", "C20"], covers=3, replace=["print_string_ptr"],
   defs=["-DPD_KIND=3", "-DPD_H=h_print_string"], note="forwards the node's value string and the buffer to print_string_ptr (logging view) and returns its answer")
+U("cJSON_HasObjectItem", "cjson", "harness/c_preds.c", enforce="cJSON_HasObjectItem", shape="U", props=["C06", "C20"], covers=3, replace=["cJSON_GetObjectItem"],
+  defs=["-DVF_WRAPPER_VIEWS", "-DVF_PUBVIEW_GetObjectItem", "-DPD_KIND=4", "-DPD_H=h_cJSON_HasObjectItem"], note="thin wrapper: one case-insensitive lookup with the caller's arguments, 1 exactly when a member is found")
+for _fn in ("cJSONUtils_GeneratePatches", "cJSONUtils_GeneratePatchesCaseSensitive"):
+    U(_fn, "utils", "harness/u_wrappers.c", enforce=_fn, shape="U", props=["C20"], covers=3, replace=["create_patches", "cJSON_CreateArray"],
+      defs=["-DVF_UTILS_WRAPPERS", "-DUW_FN=%s" % _fn, "-DUW_KIND=3", "-DUW_H=h_%s" % _fn],
+      note="frame only (C20): the entry point writes nothing but through cJSON_CreateArray / create_patches; the forwarding clause is tagged C17, which is not claimed")
